@@ -3,6 +3,15 @@ import itertools
 import math
 import numpy as np
 
+CLAIMED = True
+TECHNIQUE = "Lean 4 proof (induction over the register, all n) of the closed form of the retrieval circuit in amplitude-function semantics, cosine law over C from Mathlib; gate-list correspondence with pqm.py; Statevector oracle"
+LEVEL_TEXT = ("Full proof for the model: for every n>=1, classical or quantum pattern, every wire layout and every input state, the "
+              "circuit's output amplitudes have the closed form pqmIdeal (C17_general); with the code's angles and the auxiliary in |0> "
+              "the squared amplitudes follow cos^2(pi d/2n) label by label and memory/pattern marginals are unchanged (C17_law, "
+              "C17_marginals). Tie: gate lists of pqm.initialize diffed against the model for all patterns n<=6 (9 thorough); oracle: "
+              "exact probabilities on superposed memories and superposed quantum patterns.")
+LEVEL_NOTE = ("Trusted: Lean kernel (standard axioms), hand model <-> pqm.py beyond explored n (the loops are uniform in n), qiskit "
+              "h/x/cx/p/cp matrices (checked numerically each run), float angles -pi/(2n), pi/n vs exact reals.")
 LEAN_TARGETS = ["QclibModel.Props.C17"]
 THEOREMS = ["Qclib.C17_general", "Qclib.C17_law", "Qclib.C17_marginals"]
 TRUSTED = [
